@@ -865,3 +865,4 @@ Proof.
   - induction 1 as [|c m c' R IH H]; [constructor|].
     apply (RR_step c m); [exact IH | apply step_sstep; exact H].
 Qed.
+
